@@ -5,7 +5,8 @@
 (*   Part    one part of the observation function of one component, answered by the original chain (o)    *)
 (*           and by the re-imported chain (c) as digests of canonical JSON                                *)
 (*   KV      per-store key/value difference by key prefix (diagnostic only, never judged)                 *)
-(*   Cont    one block of a continuation applied to forks of both chains: hook results, bank digest       *)
+(*   Cont    one block of a continuation applied to forks of both chains: hook results, balance effect    *)
+(*   ContBal balance of one account class after a block of the hooks-only continuation                    *)
 (*   ContTx  one continuation message: result on both chains                                              *)
 (*   ContId  one id counter that moved during a continuation block: new value on both chains              *)
 (*   AbsOp / AbsRT / AbsCont   model behaviours of MC_Genesis executed on the real modules, projected on  *)
@@ -42,7 +43,11 @@ C20ContResults(nd) ==
   /\ nd.a = "ContTx"  => nd.st.o = nd.st.c
   /\ nd.a = "Cont"    => nd.st.hooks.o = nd.st.hooks.c
   /\ nd.a = "AbsCont" => nd.st.o.ok = nd.st.c.ok /\ nd.st.o.code = nd.st.c.code
-C20ContBalances(nd) == nd.a = "Cont" => nd.st.bal.o = nd.st.bal.c
+(* balances: "blocks" continuation (hooks only) absolutely, one ContBal node per module account / actors / others;  *)
+(* message continuations by the effect of their messages (treatment fork minus control fork on the same chain)   *)
+C20ContBalances(nd) ==
+  /\ nd.a = "Cont" /\ ~nd.args.absolute => nd.st.bal.o = nd.st.bal.c
+  /\ nd.a = "ContBal" => nd.st.o = nd.st.c
 C20ContIds(nd) ==
   /\ nd.a = "ContId"  => nd.st.o = nd.st.c
   /\ nd.a = "AbsCont" => Stutters(AbsOf(nd.st.o.abs), AbsOf(nd.st.c.abs))
@@ -79,6 +84,7 @@ Stats == PrintT(<<"STATS", [nodes |-> NLog,
    contTx    |-> Count(LAMBDA n : n.a = "ContTx"),
    contTxOk  |-> Count(LAMBDA n : n.a = "ContTx" /\ n.st.o.ok),
    contIds   |-> Count(LAMBDA n : n.a = "ContId"),
+   contBal   |-> Count(LAMBDA n : n.a = "ContBal"),
    absOps    |-> Count(LAMBDA n : n.a = "AbsOp"),
    absCloses |-> Count(LAMBDA n : n.a = "AbsOp" /\ n.args.op # "open" /\ n.res.ok),
    absRT     |-> Count(LAMBDA n : n.a = "AbsRT"),
